@@ -12,6 +12,9 @@ from harness import common
 QUALNAMES = ["my_func", "myXfunc", "MY_FUNC", "Foo.bar", "foo", "a%b", "aXXb"]
 # names with GLOB / regex metacharacters (a prefix test must treat them literally)
 GLOB_QUALNAMES = ["a[b", "a[b]c", "a*b", "a?c", "aXc", "a\\b"]
+# names that are the immediate successor of a queried prefix (prefix with its last character incremented): a range
+# test `BETWEEN prefix AND successor` would return them although they do not start with the prefix
+SUCC_QUALNAMES = ["my_fund", "fop", "Fop", "b", "Foo.bas", "a%c"]
 MODULES = ["m", "M"]
 PREFIXES = [None, "", "my_func", "my_", "MY_FUNC", "my", "foo", "Foo", "FOO", "Foo.bar", "foo.", "a%b", "a_", "a", "%", "_",
             "aXXb", "my_funcX", "a[", "a[b]", "a*", "a?c", "a?", "*", "[", "a\\"]
@@ -75,6 +78,8 @@ def _variant(v, tag):
         return {a: int}, None, None           # only return_type differs (text vs NULL)
     if v == 10:
         return {a: int}, int, str             # differs from 8 only in yield_type (text vs text)
+    if v == 11:
+        return {a: int}, str, int             # differs from 8 only in return_type, yield_type not NULL
     if v == 4:   # a wide row (spill campaigns)
         return {f"{a}_{i}": Dict[str, List[int]] for i in range(4)}, int, None
     raise ValueError(v)
@@ -91,6 +96,8 @@ def build_trace(spec):
         kind = spec[1]
         if kind == "arg":
             return CallTrace(_func("m", "bad_arg"), {"a": 3}, int)          # 3 has no __qualname__
+        if kind == "arg_of":     # an unserialisable trace of a function that also has good traces: ["bad", "arg_of", m, q]
+            return CallTrace(_func(spec[2], spec[3]), {"a": 3}, int)
         if kind == "ret":
             return CallTrace(_func("m", "bad_ret"), {"a": int}, "not a type")
         if kind == "yield":      # unserialisable only through its yield type
@@ -308,7 +315,18 @@ class Rig:
         self.stores[i] = self._open(i)
 
     def do(self, op):
-        """execute one op, return the observation dict"""
+        """execute one op, return the observation dict; an sqlite3 error that escapes the operation's own handling
+        (e.g. a store whose connection is unusable) is an observation, not a harness crash"""
+        try:
+            return self._do(op)
+        except sqlite3.Error as e:
+            out = {"k": "raised", "err": f"{type(e).__name__}: {e}"}
+            if op[0] == "add_fault":
+                rows, ok = read_table_or_fail(self.path, table=self.tables[op[1]])
+                out.update({"table": rows, "ok": ok, "vm_steps": 0})
+            return out
+
+    def _do(self, op):
         kind = op[0]
         if kind == "add":
             ci, specs = op[1], op[2]
